@@ -720,7 +720,13 @@ func c08Run(c *vk.Ctx, rr *c08Renderers, cs c08Case, prep *c08Prepared, st *c08S
 		case "nft-bare-header-field":
 			key = "C08:nft-icmp-type-code-unloadable"
 		case "icmp-match-needs-icmp-proto":
-			key = "C08:ipt-icmp-match-without-icmp-protocol-unloadable"
+			// two shapes, keyed apart so that the repaired one is re-reported if it ever returns:
+			// the rule's protocol match excludes ICMP (repaired in /repo: the ICMP match is dropped /
+			// the rule is not rendered) vs. the rule has no protocol match that pins or excludes ICMP.
+			key = "C08:ipt-icmp-match-without-icmp-protocol-unloadable:no-protocol-match-pins-icmp"
+			if rule.Protocol != nil || c08IsICMPProto(rule.NotProtocol) {
+				key = "C08:ipt-icmp-match-without-icmp-protocol-unloadable:protocol-excludes-icmp"
+			}
 		case "nft-conflicting-protocols":
 			key = "C08:nft-icmp-match-conflicting-protocol-unloadable"
 		}
@@ -1040,4 +1046,18 @@ func TestVerif_C08(t *testing.T) {
 			_ = os.WriteFile(dumpPath, []byte(strings.Join(lines, "\n")+"\n"), 0o644)
 		}
 	})
+}
+
+func c08IsICMPProto(p *proto.Protocol) bool {
+	if p == nil {
+		return false
+	}
+	switch v := p.NumberOrName.(type) {
+	case *proto.Protocol_Number:
+		return v.Number == 1 || v.Number == 58
+	case *proto.Protocol_Name:
+		n := strings.ToLower(v.Name)
+		return n == "icmp" || n == "icmpv6"
+	}
+	return false
 }
